@@ -201,6 +201,26 @@ def raise_call_names(tree):
     return out
 
 
+def bracket_names(tree):
+    """→ (names whose no-argument raise-calls all refer to the builtin, names with raise-calls of both kinds).
+    A raise site refers to the builtin when the name resolves to the module level there and nothing binds it at module level
+    (a binding of the same spelling in an unrelated scope — a comprehension, another function — does not matter)."""
+    root, occs, _ = scopes.build(tree)
+    by_node = dict((id(o.node), o) for o in occs if o.ctx == 'use')
+    module_bound = scopes.module_bound_names(root)
+    builtin_sites, other_sites = set(), set()
+    for n in ast.walk(tree):
+        if isinstance(n, ast.Raise):
+            for e in (n.exc, n.cause):
+                if isinstance(e, ast.Call) and isinstance(e.func, ast.Name) and not e.args and not e.keywords:
+                    o = by_node.get(id(e.func))
+                    if o is not None and scopes.resolve(o.scope, o.name) == ('global', ()) and o.name not in module_bound:
+                        builtin_sites.add(e.func.id)
+                    else:
+                        other_sites.add(e.func.id)
+    return builtin_sites - other_sites, builtin_sites & other_sites
+
+
 def uses_doc(tree):
     return any((isinstance(n, ast.Attribute) and n.attr == '__doc__') or (isinstance(n, ast.Name) and n.id == '__doc__') for n in ast.walk(tree))
 
@@ -229,8 +249,8 @@ def run_programs(ctx, progs, osets, found_by):
             tree = ast.parse(src)
         except (SyntaxError, ValueError):
             continue
-        unbound, tainted = unbound_names(tree)
-        rc_names = raise_call_names(tree)
+        _, tainted = unbound_names(tree)
+        unbound, mixed = bracket_names(tree)        # the names whose no-argument raise-calls refer to the builtin
         base_out, _ = run_minify(src, dict((k, False) for k in ALL_SWITCHES))
         for oname, o in osets:
             if ctx.time_left() < 25:
@@ -243,7 +263,7 @@ def run_programs(ctx, progs, osets, found_by):
             if out != base_out:
                 ctx.mark_nontrivial(ident + '|' + oname)
             # (C) model correspondence
-            ambiguous = o['remove_builtin_exception_brackets'] and any(n in impl_list and n not in unbound for n in rc_names)
+            ambiguous = o['remove_builtin_exception_brackets'] and any(n in impl_list for n in mixed)     # per-site in the code, per-name in the model
             has_fstring_arith = any(isinstance(n, ast.JoinedStr) and any(isinstance(m, ast.BinOp) for m in ast.walk(n)) for n in ast.walk(tree))
             # f-strings are opaque text in the model (and in the canon): a rewrite that reaches into an embedded expression is outside it
             has_fstring_posonly = any(isinstance(n, ast.JoinedStr) and any(isinstance(m, ast.Lambda) and m.args.posonlyargs for m in ast.walk(n)) for n in ast.walk(tree))
@@ -304,11 +324,13 @@ def _is_debug_test(t):
 
 def _scope_bound(fn, o):
     """names bound in the scope of function `fn` (not in nested scopes), with and without the statements remove_asserts /
-    remove_debug would take out"""
-    def walk(nodes, skipping, acc):
+    remove_debug take out.  The transformers filter the statement lists they are handed as *suites* (bodies of def / class / if /
+    for / while / with / try and their else / finally parts); the bodies of `except` handlers and `case` blocks and every part
+    of a `try … except*` statement are only visited statement by statement, so nothing is removed directly in them."""
+    def walk(nodes, skipping, acc, filtered=True):
         for n in nodes:
-            removed = skipping or (o.get('remove_asserts') and isinstance(n, ast.Assert)) or \
-                (o.get('remove_debug') and isinstance(n, ast.If) and not n.orelse and _is_debug_test(n.test))
+            removed = skipping or (filtered and ((o.get('remove_asserts') and isinstance(n, ast.Assert)) or
+                                                 (o.get('remove_debug') and isinstance(n, ast.If) and not n.orelse and _is_debug_test(n.test))))
             visit(n, removed, acc)
 
     def visit(n, removed, acc):
@@ -339,12 +361,16 @@ def _scope_bound(fn, o):
             bind(n.rest)
         if isinstance(n, (ast.Global, ast.Nonlocal)):
             return
-        children = list(ast.iter_child_nodes(n))
-        stmts = [c for c in children if isinstance(c, ast.stmt)]
-        walk(stmts, removed, acc)
-        for c in children:
-            if not isinstance(c, ast.stmt):
-                visit(c, removed, acc)
+        unfiltered = isinstance(n, (ast.ExceptHandler, ast.match_case)) or type(n).__name__ == 'TryStar'
+        for field, value in ast.iter_fields(n):
+            if isinstance(value, list) and value and all(isinstance(c, ast.stmt) for c in value):
+                walk(value, removed, acc, filtered=not unfiltered)
+            elif isinstance(value, list):
+                for c in value:
+                    if isinstance(c, ast.AST):
+                        visit(c, removed, acc)
+            elif isinstance(value, ast.AST):
+                visit(value, removed, acc)
     acc = (set(), set())
     walk(fn.body, False, acc)
     return acc
